@@ -7,3 +7,4 @@ INFO = {'not_decided': ['match statements, PEP 695, except*, del, dynamic names 
         'stated_lemmas': ['composition lemma (DESIGN 2.2): per-construct contracts + table lemmas => names_at(read) is the set of reaching definitions',
                           'jump subsumption: states reachable through break/continue/return/raise are included in the jump-free state at identifier level'],
         'trusted': []}
+import contracts.composition  # noqa
